@@ -144,7 +144,7 @@ def op_chmod(wt, rel):
 
 def op_addfile(wt, rel, content):
     p = _p(wt, rel)
-    _need(not os.path.lexists(p) and os.path.isdir(os.path.dirname(p)))
+    _need(not os.path.lexists(p) and os.path.isdir(os.path.dirname(p)) and not _versioned(wt, rel))
     par = os.path.dirname(rel)
     _need(par == "" or _versioned(wt, par))
     with open(p, "wb") as f:
@@ -154,7 +154,7 @@ def op_addfile(wt, rel, content):
 
 def op_adddir(wt, rel):
     p = _p(wt, rel)
-    _need(not os.path.lexists(p) and os.path.isdir(os.path.dirname(p)))
+    _need(not os.path.lexists(p) and os.path.isdir(os.path.dirname(p)) and not _versioned(wt, rel))
     par = os.path.dirname(rel)
     _need(par == "" or _versioned(wt, par))
     os.mkdir(p)
@@ -163,7 +163,7 @@ def op_adddir(wt, rel):
 
 def op_addlink(wt, rel, target):
     p = _p(wt, rel)
-    _need(not os.path.lexists(p) and os.path.isdir(os.path.dirname(p)))
+    _need(not os.path.lexists(p) and os.path.isdir(os.path.dirname(p)) and not _versioned(wt, rel))
     par = os.path.dirname(rel)
     _need(par == "" or _versioned(wt, par))
     os.symlink(target, p)
@@ -173,7 +173,7 @@ def op_addlink(wt, rel, target):
 def op_unknown(wt, rel, content):
     """An unversioned file (never selected unless named)."""
     p = _p(wt, rel)
-    _need(not os.path.lexists(p) and os.path.isdir(os.path.dirname(p)))
+    _need(not os.path.lexists(p) and os.path.isdir(os.path.dirname(p)) and not _versioned(wt, rel))
     with open(p, "wb") as f:
         f.write(content)
 
@@ -206,7 +206,7 @@ def op_delete_on_disk(wt, rel):
 
 def op_rename(wt, src, dst):
     ps, pd = _p(wt, src), _p(wt, dst)
-    _need(os.path.lexists(ps) and _versioned(wt, src) and not os.path.lexists(pd))
+    _need(os.path.lexists(ps) and _versioned(wt, src) and not os.path.lexists(pd) and not _versioned(wt, dst))
     par = os.path.dirname(dst)
     _need(os.path.isdir(os.path.dirname(pd)) and (par == "" or _versioned(wt, par)))
     _need(not inside(dst, src))
@@ -260,8 +260,13 @@ OPS = {
 def apply_ops(wt, ops):
     """Apply a sequence of (name, *args); raises Inapplicable when an op's precondition fails."""
     for op in ops:
-        with wt.lock_tree_write():
-            OPS[op[0]](wt, *op[1:])
+        try:
+            with wt.lock_tree_write():
+                OPS[op[0]](wt, *op[1:])
+        except Inapplicable:
+            raise
+        except Exception as e:  # noqa  (tree operations themselves are C09's subject, not this check's)
+            raise Inapplicable("%s: %r" % (op, e)) from e
 
 
 # ---- directory snapshots ------------------------------------------------------------------
